@@ -4,7 +4,7 @@
 From Coq Require Import NArith ZArith List Bool.
 Import ListNotations.
 Require Import UV.Gen.Consts UV.Mcount.Model UV.Mcount.Forest UV.Mcount.PlainStep UV.Mcount.PlainProofs
-  UV.Mcount.Codec UV.Mcount.PlainMore.
+  UV.Mcount.Codec UV.Mcount.PlainMore UV.Mcount.Overflow.
 Local Open Scope N_scope.
 
 (* Writer and readers agree on the record word: the hand-packed word of record_ret_stack decodes,
@@ -53,6 +53,16 @@ Theorem C02_matching_addresses : forall thr gd ms sh f, all_timed f -> heights f
   paired [] (out (fst (exec (plain thr gd ms sh) (flat_forest f) (init, [])))) = true.
 Proof. exact recorded_stream_paired. Qed.
 Print Assumptions C02_matching_addresses.
+
+(* Stacks deeper than --max-stack (and/or -D): for ANY limits gd, ms and any forest (no bound on its
+   height), with every call taking at least one tick and no threshold, the -pg/fentry/PLT shape records
+   exactly the calls nested less deep than min(gd, ms) - deeper calls are dropped whole, and nothing else
+   is changed, whatever the overflow flush of mcount_check_rstack does in between.
+   (The cygprof shape's overflow path is covered by the correspondence only.) *)
+Theorem C02_deeper_dropped_not_corrupted : forall gd ms f, all_timed f -> all_positive f ->
+  out (fst (exec (plain 0 gd ms PG) (flat_forest f) (init, []))) = flat_map (recs 0 (N.min gd ms) 0) f.
+Proof. exact run_forest'. Qed.
+Print Assumptions C02_deeper_dropped_not_corrupted.
 
 (* A forked child continues the parent's open calls: its stream starts empty, contains no ENTRY for
    the inherited frames, and the calls it makes are recorded at the parent's depth d. *)
